@@ -205,7 +205,7 @@ def _o4(ctx):
                 for t, v, _ in assigned_targets(st):
                     if isinstance(t, ast.Name) and t.id == arg.id and v is not None and st.lineno < c.lineno:
                         txt = norm(v)
-                        if ".copy()" in txt or txt.startswith("dict(") or txt.startswith("{**"):
+                        if ".copy()" in txt or "dict(" in txt or "{**" in txt:
                             copied = True
             ctx.check(copied, R, fi, c, f"`{arg.id}` is handed to _eval_expressions_final without being copied in this function: names defined by this object leak into the caller's scope "
                                         f"(siblings and outer objects see them)", "table copied before evaluation")
@@ -232,7 +232,7 @@ def _o4(ctx):
                     while scope is not None and not copied:
                         for s2 in scope.stmts():
                             for t2, v2, _ in assigned_targets(s2):
-                                if isinstance(t2, ast.Name) and t2.id == "symbol_table" and v2 is not None and (".copy()" in norm(v2) or norm(v2).startswith("dict(") or norm(v2).startswith("{**")):
+                                if isinstance(t2, ast.Name) and t2.id == "symbol_table" and v2 is not None and (".copy()" in norm(v2) or "dict(" in norm(v2) or "{**" in norm(v2)):
                                     if scope is not fi or s2.lineno < st.lineno:
                                         copied = True
                         scope = scope.parent
